@@ -150,7 +150,7 @@ func worldCodec(w *World) {
 
 	ncases := w.KnobPick("ncases", 6, 12, 24)
 	for i := 0; i < ncases; i++ {
-		switch k := r.Intn(9); k {
+		switch k := r.Intn(10); k {
 		case 0: // arbitrary chunking of a valid login, down to one byte per write
 			w.Check("C17.chunked-login-accepted")
 			conn, _ := rawConn()
@@ -346,6 +346,48 @@ func worldCodec(w *World) {
 				viol("framing", "bytes-after-first-frame-consumed", "Login and the first %d bytes of the control stream were written together; the login was accepted but the Ping that followed it was never answered: the server read past the first frame", tail.Len())
 			}
 			conn.Close()
+		case 8: // a first message that looks like the start of a TLS handshake and then stalls
+			w.Check("C17.stalled-tls-first-message")
+			w.Probe("codec.stalled_tls_hello")
+			raw, err := simnet.DialFrom("10.0.5.9", "10.0.0.1:7000", 10*time.Second)
+			if err != nil {
+				continue
+			}
+			hello := clientHelloFor("frps.example.test")
+			cut := r.Range(10, len(hello)-1)
+			if r.Intn(3) == 0 {
+				cut = r.Range(10, 16)
+			}
+			var first []byte
+			if r.Intn(2) == 0 {
+				first = []byte{0x17} // the head byte frp's own TLS announces itself with
+			}
+			raw.Write(append(first, hello[:cut]...))
+			t0 := w.Net.Now()
+			// meanwhile everybody else is served as usual, peers that speak TLS included
+			for j := 0; j < r.Range(1, 3); j++ {
+				tp := w.NewPeer(fmt.Sprintf("tls%d-%d", i, j), fmt.Sprintf("10.0.6.%d", 1+(i*4+j)%250), PeerOpts{Server: "10.0.0.1:7000", Mux: tcpMux, Token: token, TLS: true, CustomByte: r.Intn(2) == 0})
+				t1 := w.Net.Now()
+				rr, err := tp.Login("tlsuser", "", 0)
+				if err != nil || mstr(rr, "error") != "" {
+					viol("isolation", "tls-peers-held-up-by-stalled-hello", "while a connection that sent %d bytes of a TLS hello stays silent, a TLS login of another peer failed after %v: %v %v", cut, w.Net.Now()-t1, err, rr)
+					tp.Drop()
+					break
+				}
+				tp.Drop()
+			}
+			checkHonest("during-stalled-tls-hello")
+			left := 60*time.Second - (w.Net.Now() - t0)
+			if left < time.Second {
+				left = time.Second
+			}
+			raw.SetReadDeadline(time.Now().Add(left))
+			if _, err := raw.Read(make([]byte, 64)); err != nil {
+				if ne, ok := err.(net.Error); ok && ne.Timeout() {
+					viol("framing", "stalled-tls-first-message-kept-open", "%d bytes of a TLS hello, then silence: the connection is still open after 60 s", cut)
+				}
+			}
+			raw.Close()
 		default:
 			checkHonest("mid")
 		}
